@@ -30,7 +30,7 @@ func (e *ArrayExp) format(w stringWriter, prefix string) {
 	}
 	p, isMro := w.(*printer)
 	if e.singleLineFormat() && (!isMro ||
-		values[0].getNode() != nil && len(values[0].getNode().Comments) == 0) {
+		values[0].getNode() != nil && !values[0].getNode().hasComments()) {
 		// Place single-element arrays on a single line.
 		mustWriteRune(w, '[')
 		values[0].format(w, prefix)
@@ -39,7 +39,7 @@ func (e *ArrayExp) format(w stringWriter, prefix string) {
 		mustWriteString(w, "[\n")
 		vindent := prefix + INDENT
 		for _, val := range values {
-			if n := val.getNode(); n != nil && len(n.Comments) > 0 && isMro {
+			if n := val.getNode(); n != nil && isMro {
 				p.printComments(n, vindent)
 			}
 			mustWriteString(w, vindent)
@@ -49,6 +49,12 @@ func (e *ArrayExp) format(w stringWriter, prefix string) {
 		mustWriteString(w, prefix)
 		mustWriteRune(w, ']')
 	}
+}
+
+// hasComments returns true if there are comments to print before the node,
+// whether attached to it or left over from earlier in its scope.
+func (node *AstNode) hasComments() bool {
+	return len(node.Comments) > 0 || len(node.scopeComments) > 0
 }
 
 func (e *ArrayExp) singleLineFormat() bool {
@@ -155,7 +161,7 @@ func (e *MapExp) format(w stringWriter, prefix string) {
 		for _, key := range keys {
 			v := e.Value[key]
 			if isMro && v != nil {
-				if n := v.getNode(); n != nil && len(n.Comments) > 0 {
+				if n := v.getNode(); n != nil {
 					p.printComments(n, vindent)
 				}
 			}
